@@ -138,8 +138,9 @@ P = {
        "node for node through a -overlay dump): run_inv (red-black invariants after every history, any compare function), "
        "height_le 2*log2(n+1), insert_inorder (stable insertion), remove_inorder (erases the FIRST equal entry), inorder_run/"
        "count_run (refinement to the sorted association list), get_first, first_last, traverse and traverseFrom specs with the "
-       "visitor cut, comparison-count bounds (find <= height, insert <= height+1). ~1.5M operations per quick run with "
-       "identical compare counts demanded.",
+       "visitor cut, comparison-count bounds (find <= height, insert <= height+1). ~1.5M operations per quick run; the "
+       "real code's comparison count is judged on every operation against the property's bound 2*floor(log2(n+1)) + "
+       "(entries equal to the key) + 2 (exact counts are not compared: the statement only bounds them).",
   note="compare assumed a total preorder (explicit hypothesis, proved for the driver's two modes); parent pointers and Go "
        "recursion depth are outside the model (parent links checked at run time by the overlay's inv op); shape/count "
        "observables are model detail: a mismatch only there is reported without a concrete failing input.",
@@ -210,11 +211,13 @@ P = {
   text="25 Lean theorems, generic over rectangle laws proved from C18 and instantiated at Int and Rat: after any history the ids "
        "reported by All equal the specification's multiset (abs_run, size_run), each of the 8 Find* queries (plain and matched) "
        "equals the filter of the stored nodes by the geom predicate, each boolean query is true iff its Find* is non-empty, "
-       "insert/remove node-level refinement, fuel_suffices_int / fuel_independent_int (the fuelled model never runs out on integer "
-       "rectangles, for every history). The model (outside list, "
+       "insert/remove node-level refinement, fuel_suffices_int / fuel_independent_int (results do not depend on the fuel once it exceeds "
+       "width+height of the root box; the driver additionally checks at run time that its fuel was never exhausted, since "
+       "its histories contain boxes larger than its fuel). The model (outside list, "
        "auto-Reorganize, swap-remove, thresholds) is run against quadtree over int and float64 (exact dyadic inputs).",
   note="the same node inserted twice is two entries; nodes whose Bounds change while stored are outside the contract "
-       "(hypothesis OpOK); float rounding is outside the exact-arithmetic theorems: the fractional-float clause is evidenced "
+       "(hypothesis OpOK); integer coordinates are modelled as unbounded (machine overflow of X+Width is outside the "
+       "theorems); float rounding is outside the exact-arithmetic theorems: the fractional-float clause is evidenced "
        "by the floatscan oracle (non-dyadic floats vs a linear scan with the library's own predicates); 3 inputs with "
        "rectangles whose positive size is absorbed by rounding are KNOWN FINDINGS.",
   ref="DESIGN.md section 5 C07"),
